@@ -177,15 +177,41 @@ class get_order_c:
         return result == raw_cfg(self, "calendar", "order") and effect_names() == []
 
 
+def cfg_ok(store):
+    """Repository integrity for the metadata entry: the tree's .xandikos entry names an object
+    that exists (and is text); established by every write of it (import_one adds the blob)."""
+    return store.ghost_cfg is None or (is_ascii(store.ghost_cfg)
+                                       and in_store(store.repo.object_store, store.ghost_cfg.encode("ascii")))
+
+
+def stored_cfg(store):
+    """The options of the collection's versioned .xandikos file."""
+    return (empty("dict[str,str]") if store.ghost_cfg is None
+            else cfg_parse(b"".join(blob_of(store.ghost_cfg.encode("ascii")).chunked).decode("utf-8")))
+
+
 @contract("xandikos.store.git.GitStore.config", params={"self": "obj:xandikos.store.git.GitStore"},
-          returns="obj:xandikos.store.config.FileBasedCollectionMetadata", may_raise=["KeyError"])
+          returns="oneof:xandikos.store.git.RepoCollectionMetadata|xandikos.store.config.FileBasedCollectionMetadata",
+          may_raise=["KeyError"])
 class GitStore_config_c:
     """C15: the metadata object is rebuilt from the repository on every access (so a restart
     changes nothing), and the parser it uses returns values as written (no interpolation)."""
 
     def requires(self):
-        return self.ghost_cfg is None or is_ascii(self.ghost_cfg)
+        return cfg_ok(self)
 
     def ensures(self, result):
-        return implies(is_instance(result, "xandikos.store.config.FileBasedCollectionMetadata"),
-                       not cp_interpolating(result._configparser))
+        return (not cp_interpolating(result._configparser)
+                if is_instance(result, "xandikos.store.config.FileBasedCollectionMetadata") else True)
+
+    def ensures_which(self, result):
+        # the git-config form is used exactly when the repository has a [xandikos] section
+        return (is_instance(result, "xandikos.store.git.RepoCollectionMetadata") == repo_has_meta(self.repo)
+                and is_instance(result, "xandikos.store.config.FileBasedCollectionMetadata") == (not repo_has_meta(self.repo))
+                and (result._repo == self.repo if is_instance(result, "xandikos.store.git.RepoCollectionMetadata") else True))
+
+    def ensures_contents(self, result):
+        # ... and otherwise the parser holds exactly what the stored .xandikos file says
+        # (nothing when there is none): what was saved is what every later access reads
+        return (cp_data(result._configparser) == stored_cfg(self)
+                if is_instance(result, "xandikos.store.config.FileBasedCollectionMetadata") else True)
